@@ -56,7 +56,15 @@ C13ok(c) == /\ (c.naming = "same" => c.neq = c.nunk)
             /\ (c.lkind = "statio" => c.icpat = "none")
             /\ (c.lkind = "ode" => ~c.bnd)
             /\ (c.pbatch => c.obspat = "none" /\ ~c.bnd)
+(* loss terms on separable networks (C11, and the SPINN side of C04 / C05) *)
+C11L == [kind : {"loss_struct"}, family : {"C11L"}, lkind : {"statio", "nonstatio"}, dim : 1..2, term : {"ic", "norm", "dirichlet", "neumann"},
+         b : {1, 2, 4}, R : 1..2, M : 1..2, gzero : BOOLEAN]
+C11Lok(c) == /\ (c.term = "ic" => c.lkind = "nonstatio" /\ ~c.gzero)
+             /\ (c.term = "norm" => c.M = 1 /\ ~c.gzero)
+             /\ (c.term = "neumann" => c.M = 1)
+             /\ (c.dim = 2 /\ c.lkind = "nonstatio" => c.b <= 2)
 Space == CASE Family = "C03" -> {c \in C03 : C03ok(c)}
+           [] Family = "C11L" -> {c \in C11L : C11Lok(c)}
            [] Family = "C13" -> {c \in C13 : C13ok(c)}
            [] Family = "C04" -> {c \in C04 : C04ok(c)}
            [] Family = "C05" -> {c \in C05 : C05ok(c)}
